@@ -25,7 +25,8 @@ pub fn root(net: NetID, fee_mult: u128, with_wallet: bool) -> (World, Node) {
         let mut f = f;
         // the fee is part of the serialised size: iterate to a fixed point
         for _ in 0..4 {
-            f.fee = melstructs::CoinValue(min_fee(&f, fee_mult));
+            // comfortably above the minimum: the set-up must not depend on the exact threshold (that is C05's subject)
+            f.fee = melstructs::CoinValue(min_fee(&f, fee_mult) + if fee_mult > 0 { 1000 } else { 0 });
         }
         u.apply_tx(&f).expect("set-up faucet");
         for i in 0..f.outputs.len() {
